@@ -440,6 +440,10 @@ func (g *Gen) nullIffZero(o *Occ) {
 				w(`    if _, act := p.%s.(*%s%s); act { vrt.Assert("C20/"+path+"/%s:by-value-time-duration-rendered", !v.Null) }`, grp.GoName, g.TQ, s.Wrapper, n)
 			} else {
 				w(`    if _, act := p.%s.(*%s%s); act { vrt.Assert("C07/"+path+"/%s:active-nonnull-iff-nonzero", v.Null == (sel != %d)) }`, grp.GoName, g.TQ, s.Wrapper, n, i+1)
+				if s.Kind == SScalar && s.Leaf.HasZero {
+					// C20: "null exactly when the field holds its zero value" also for the branch a oneof holds
+					w(`    if _, act := p.%s.(*%s%s); act { vrt.Assert("C20/"+path+"/%s:active-branch-null-iff-zero", v.Null == (sel != %d)) }`, grp.GoName, g.TQ, s.Wrapper, n, i+1)
+				}
 			}
 			if s.Kind == SMsg {
 				w(`    if wv, ok := p.%s.(*%s%s); ok && wv.%s != nil && !v.Null { nullIffZero_%s(v, wv.%s, path+"/%s") }`, grp.GoName, g.TQ, s.Wrapper, s.GoName, s.Sub.ID, s.GoName, n)
@@ -676,6 +680,17 @@ func (g *Gen) harnessRT(o *Occ) {
 	g.normEq(o)
 	name := "Harness_RT_" + o.ID
 	g.hs = append(g.hs, name)
+	// C19: a time / duration held by value is always rendered, so a oneof branch of that kind survives
+	// the round trip whatever its payload (zero included)
+	var temporal strings.Builder
+	for _, grp := range o.Oneofs {
+		for _, sl := range grp.Slots {
+			if sl.Kind == SScalar && !sl.Leaf.HasZero && !sl.Leaf.Ptr {
+				fmt.Fprintf(&temporal, "\tif w, ok := obj.%s.(*%s%s); ok { w2, ok2 := back.%s.(*%s%s); vrt.Assert(\"C04+C19/%s.%s:by-value-temporal-branch-survives\", ok2 && %s) }\n",
+					grp.GoName, g.TQ, sl.Wrapper, grp.GoName, g.TQ, sl.Wrapper, o.ID, sl.GoName, leafEq(sl.Leaf, "w."+sl.GoName, "w2."+sl.GoName))
+			}
+		}
+	}
 	g.p(`func %s() {
 	ctx := context.Background()
 	var obj %s%s
@@ -691,9 +706,9 @@ func (g *Gen) harnessRT(o *Occ) {
 	vrt.CheckNoPanic("C04/%s/roundtrip:no-panic")
 	vrt.Assert("C04/%s/copyfrom:no-error-diagnostic", !d2.HasError())
 	normEq_%s(&obj, &back, "C04/", "C04+C19/", %q)
-	vrt.Reach("RT/%s/end")
+%s	vrt.Reach("RT/%s/end")
 }
-`, name, g.TQ, o.MsgName, o.MsgName, o.ID, g.FQ, o.MsgName, o.ID, o.ID, o.ID, o.ID, o.ID, o.ID, g.TQ, o.MsgName, g.FQ, o.MsgName, o.ID, o.ID, o.ID, o.ID, o.ID)
+`, name, g.TQ, o.MsgName, o.MsgName, o.ID, g.FQ, o.MsgName, o.ID, o.ID, o.ID, o.ID, o.ID, o.ID, g.TQ, o.MsgName, g.FQ, o.MsgName, o.ID, o.ID, o.ID, o.ID, temporal.String(), o.ID)
 }
 
 func (g *Gen) file(pkg string, imports []string) string {
